@@ -173,6 +173,12 @@ func cmdCheck(args []string) int {
 		// a contract whose target vanished: undecided, not a violation
 		return writeUndecided(prop, *tier, seed, t0, err.Error())
 	}
+	for _, m := range w.MissingTargets {
+		fmt.Printf("UNDECIDED: contract target not found on this tree (its obligations are not generated): %s\n", m)
+	}
+	if data, err := os.ReadFile(filepath.Join(verifDir, "obligations", prop+".locals")); err == nil {
+		_ = json.Unmarshal(data, &w.BaseLocals)
+	}
 	loadSec := time.Since(t0).Seconds()
 
 	var results []*FnResult
@@ -273,6 +279,24 @@ func cmdCheck(args []string) int {
 			}
 		}
 		results = append(results, sw...)
+	}
+	if base := loadBaseline(prop); *tier == "quick" && len(base) > 0 && !*updateBaseline {
+		// quick tier: safety obligations of functions under contract that were undecided when the baseline was taken
+		// (non-binding) are not attempted again; the thorough tier tries them
+		noise := loadNameList(prop + ".unproved")
+		for _, r := range results {
+			if r.Kind != "contract" {
+				continue
+			}
+			keep := r.Obls[:0]
+			for _, o := range r.Obls {
+				if !base[o.Name] && noise[o.Name] && isSafetyKind(o.Kind) {
+					continue
+				}
+				keep = append(keep, o)
+			}
+			r.Obls = keep
+		}
 	}
 	for _, g := range cfg.Ground {
 		results = append(results, runGround(w, g)...)
